@@ -557,3 +557,68 @@ func init() {
 		return []*Value{prim(res, tGoInt)}
 	}
 }
+
+func init() {
+	// x/params Subspace: the parameter set of a module is one record of that module's state
+	ps := "(github.com/cosmos/cosmos-sdk/x/params/types.Subspace)."
+	target := func(x *Exec, s *State, v *Value) (*Value, bool) {
+		if v == nil {
+			return nil, false
+		}
+		if v.K == KOpaque && v.Dyn != nil {
+			v = v.Dyn
+		}
+		if v.K == KPtr && v.Cell != 0 {
+			return v, true
+		}
+		return nil, false
+	}
+	famOf := func(x *Exec, v *Value, extra string) string {
+		tn := "params"
+		if pt, ok := v.Typ.Underlying().(*types.Pointer); ok {
+			tn = strings.ReplaceAll(types.TypeString(pt.Elem(), func(p *types.Package) string { return p.Name() }), ".", "_")
+		}
+		return moduleOf(x.cur.pkg.Path) + "/params." + sanitize(tn) + extra
+	}
+	builtins[ps+"GetParamSet"] = func(x *Exec, s *State, r *Value, a []*Value, c *ast.CallExpr) []*Value {
+		id, w := x.ctxWorld(s, a[0])
+		_ = id
+		if p, ok := target(x, s, a[1]); ok {
+			f := w.fam(famOf(x, p, ""), 0)
+			pt := p.Typ.Underlying().(*types.Pointer).Elem()
+			v := buildValue(pt, "", nil, func(path string, srt *Sort, lt types.Type) *Term { return f.leaf(path, srt) }, 0)
+			v = x.liven(s, v)
+			x.assumeElemFacts(s, v)
+			s.Heap[p.Cell] = v
+		}
+		return nil
+	}
+	builtins[ps+"GetParamSetIfExists"] = builtins[ps+"GetParamSet"]
+	builtins[ps+"SetParamSet"] = func(x *Exec, s *State, r *Value, a []*Value, c *ast.CallExpr) []*Value {
+		id, _ := x.ctxWorld(s, a[0])
+		if p, ok := target(x, s, a[1]); ok {
+			w := s.MutWorld(id)
+			fid := famOf(x, p, "")
+			f := w.fam(fid, 0).clone()
+			w.Fams[fid] = f
+			x.writeLeaves(s, f, nil, "", x.deaden(s, s.Heap[p.Cell]))
+		}
+		return nil
+	}
+	builtins[ps+"Get"] = func(x *Exec, s *State, r *Value, a []*Value, c *ast.CallExpr) []*Value {
+		_, w := x.ctxWorld(s, a[0])
+		if p, ok := target(x, s, a[2]); ok {
+			kid := "opaque"
+			if a[1].K == KBytes && a[1].B.Kind == "key" && len(a[1].B.Segs) == 1 && a[1].B.Segs[0].T == nil {
+				kid = hex.EncodeToString(a[1].B.Segs[0].Const)
+			}
+			f := w.fam(famOf(x, p, "."+kid), 0)
+			pt := p.Typ.Underlying().(*types.Pointer).Elem()
+			v := buildValue(pt, "", nil, func(path string, srt *Sort, lt types.Type) *Term { return f.leaf(path, srt) }, 0)
+			v = x.liven(s, v)
+			x.assumeElemFacts(s, v)
+			s.Heap[p.Cell] = v
+		}
+		return nil
+	}
+}
